@@ -10,11 +10,11 @@ Open Scope Z_scope.
 
 (* every occurrence of the single-level rule in the source is the model's single_level (one rule, used consistently) *)
 Theorem single_level_matches_source : forall level all_iters,
-  single_level_tests_src level all_iters <> [] /\
-  Forall (fun b => b = single_level level all_iters) (single_level_tests_src level all_iters).
+  (exists b t, single_level_tests_src level all_iters = b :: t) /\
+  forallb (fun b => Bool.eqb b (single_level level all_iters)) (single_level_tests_src level all_iters) = true.
 Proof.
-  intros level all_iters. unfold single_level_tests_src, single_level. split; [discriminate|].
-  repeat (constructor; [first [reflexivity | destruct (level =? -1), all_iters; reflexivity]|]). constructor.
+  intros level all_iters. unfold single_level_tests_src, single_level. split; [eexists; eexists; reflexivity|].
+  cbn [forallb]. destruct (level =? -1); destruct all_iters; reflexivity.
 Qed.
 Print Assumptions single_level_matches_source.
 
